@@ -266,6 +266,7 @@ type handFileOpts struct {
 	FewerBlockSizes bool // interior nodes record the size of their first child only
 	LeafMtimes      bool // every dag-pb leaf carries a modification time of its own (UnixFS 1.5)
 	HighMode        bool // interior nodes carry a mode with bit 31 set (a legal 32-bit value)
+	InlineOdd       bool // every second leaf is inlined into an identity CID (mixed with hashed siblings under one parent)
 	PBTsize         int  // Tsize on links to dag-pb children: 0 cumulative, 1 zero, 2 absent, 3 one (Tsize is advisory there)
 }
 
@@ -291,10 +292,20 @@ func handFile(st *store.Store, chunks [][]byte, o handFileOpts) (cid.Cid, uint64
 				m.Mtime = &pb.IPFSTimestamp{Seconds: &secs, Nanos: &ns}
 			}
 			blk := encodePB(mustMarshal(m), true, nil)
-			c := st.PutBlock(ver, cid.DagProtobuf, blk)
+			var c cid.Cid
+			if o.InlineOdd && len(level)%2 == 1 {
+				c = st.PutAs(identityCid(cid.DagProtobuf, blk), blk)
+			} else {
+				c = st.PutBlock(ver, cid.DagProtobuf, blk)
+			}
 			level = append(level, nd{c, uint64(len(ch)), uint64(len(blk))})
 		} else {
-			c := st.PutBlock(1, cid.Raw, ch)
+			var c cid.Cid
+			if o.InlineOdd && len(level)%2 == 1 {
+				c = st.PutAs(identityCid(cid.Raw, ch), ch)
+			} else {
+				c = st.PutBlock(1, cid.Raw, ch)
+			}
 			level = append(level, nd{c, uint64(len(ch)), uint64(len(ch))})
 		}
 	}
@@ -359,6 +370,14 @@ func handFile(st *store.Store, chunks [][]byte, o handFileOpts) (cid.Cid, uint64
 		level = next
 	}
 	return level[0].c, level[0].tsize
+}
+
+func identityCid(codec uint64, data []byte) cid.Cid {
+	mh, err := multihash.Sum(data, multihash.IDENTITY, -1)
+	if err != nil {
+		panic(err)
+	}
+	return cid.NewCidV1(codec, mh)
 }
 
 func splitChunks(content []byte, k int) [][]byte {
@@ -427,6 +446,9 @@ func handName(o handFileOpts) string {
 	}
 	if o.LeafMtimes {
 		s += "-leafmtimes"
+	}
+	if o.InlineOdd {
+		s += "-inlineodd"
 	}
 	if o.PBTsize != 0 {
 		s += []string{"", "-tsize0", "-tsizeabsent", "-tsize1"}[o.PBTsize]
